@@ -117,7 +117,7 @@ Definition params_ok (P : params) : Prop :=
   g_alias P = 9 /\ g_encoding P = 6 /\ g_endian P = 5 /\ g_frameoffset P = 1 /\ g_hidden P = 9 /\
   g_include P = 3 /\ g_namespace P = 10 /\ g_protect P = 6 /\ g_reference P = 6 /\ g_version P = 5 /\
   g_slash P = 5 /\ g_barth P = 7 /\ g_nsname P = 10 /\ g_nsaffix P = 10 /\ g_fo_base0 P = 9 /\
-  prm_leak_parent P = 9 /\ prm_leak_child P = 9 /\ prm_ns_pop P = true /\ prm_nullns P = true.
+  prm_leak_parent P = 9 /\ prm_leak_child P = 9 /\ prm_ns_pop P = true /\ prm_nullns P = true /\ g_reprz P = 10.
 
 (* the code stores "" where a fragment included with a null namespace tag
    ("/INCLUDE f .") has no root namespace of its own: NULL and "" are the same
@@ -182,7 +182,7 @@ Qed.
 
 Ltac dRel H := destruct H as (Rent & Rfirst & Rnfrag & Rlevel & Rstd & Rped & Rns & Rf & Rref & Rkids & Rmono).
 Ltac dPok H := destruct H as (Pprot & Poff & Penc & Pmax & Pstd & Galias & Genc & Gend & Gfo & Ghid & Ginc & Gns &
-                              Gprot & Gref & Gver & Gslash & Gbarth & Gnsname & Gnsaffix & Gfo0 & Pleakp & Pleakc & Pnspop & Pnullns).
+                              Gprot & Gref & Gver & Gslash & Gbarth & Gnsname & Gnsaffix & Gfo0 & Pleakp & Pleakc & Pnspop & Pnullns & Greprz).
 
 Section Concrete.
   Variable P : params.
@@ -195,16 +195,19 @@ Section Concrete.
     destruct (rel_frag_facts _ _ Rf) as (Fset & Fpx & Fsx & Fns & Fnn & Fidx & Fpar & Fdir).
     unfold i_namef, s_namef. rewrite Fpx, Fsx, Fns, Rstd, Rped, Rns. rewrite Gnsname. rewrite nons_name.
     apply build_code_agrees. right. unfold plain_name in Hp. apply andb_true_iff in Hp. destruct Hp as [H1' H2'].
-    split. apply negb_true_iff; auto. intros _. apply negb_true_iff; auto.
+    split. apply negb_true_iff; auto. intros _. split; auto. apply negb_true_iff; auto.
   Qed.
 
   Lemma codef_eq : forall phi a b tok, Rel phi a b -> plain_code tok = true ->
-    i_codef a tok = s_codef b tok.
+    i_codef P a tok = s_codef b tok.
   Proof.
-    intros phi a b tok HR Hp. dRel HR.
+    intros phi a b tok HR Hp. pose proof HP as HP'. dPok HP'. dRel HR.
     destruct (rel_frag_facts _ _ Rf) as (Fset & Fpx & Fsx & Fns & Fnn & Fidx & Fpar & Fdir).
-    unfold i_codef, s_codef. rewrite Fpx, Fsx, Fns, Rstd, Rped, Rns. rewrite nons_code. f_equal.
-    apply build_code_agrees. right. unfold plain_code in Hp. split. apply negb_true_iff; auto. intros; discriminate.
+    unfold i_codef, s_codef. rewrite Fpx, Fsx, Fns, Rns. rewrite Greprz. simpl negb. simpl andb.
+    rewrite (pvers_ge_sv _ (s_ver b)); auto. rewrite Rstd, Rped. rewrite nons_code. f_equal.
+    apply build_code_agrees. right. unfold plain_code in Hp. apply andb_true_iff in Hp. destruct Hp as [H1' H2'].
+    apply negb_true_iff in H1'. apply negb_true_iff in H2'.
+    split. destruct (sv_ge (s_ver b) 10); auto. intros; discriminate.
   Qed.
 End Concrete.
 
@@ -375,7 +378,7 @@ Section Concrete2.
   Proof.
     intros phi l a b Hni Hok HR. pose proof HP as HP'. dPok HP'.
     pose proof (dir_ok_eq phi a b) as HD. pose proof (frag_index_eq _ _ _ HR) as HI.
-    pose proof (namef_eq P HP phi a b) as HN. pose proof (codef_eq phi a b) as HC.
+    pose proof (namef_eq P HP phi a b) as HN. pose proof (codef_eq P HP phi a b) as HC.
     pose proof HR as HR0. dRel HR.
     destruct l; try contradiction; unfold impl_simple, spec_simple.
     - (* ENCODING *) rewrite Genc, HD; auto. destruct (s_dir_ok (s_ver b) 6); simpl; auto. scoped_case Rf.
@@ -401,7 +404,7 @@ Section Concrete2.
       simpl in Hok. apply andb_true_iff in Hok. destruct Hok as [O0 O3].
       unfold name_ok in O0. apply andb_true_iff in O0. destruct O0 as [O1 O2].
       rewrite HI, Rent, Rstd, Rped, Gbarth. rewrite (pvers_ge_sv _ (s_ver b)); auto.
-      rewrite (add_field_ext (i_namef P a) (s_namef b) (i_codef a) (s_codef b)); auto.
+      rewrite (add_field_ext (i_namef P a) (s_namef b) (i_codef P a) (s_codef b)); auto.
       2:{ intros i0 [Hk|[tb Hk]]; subst; apply HC; auto. }
       destruct (add_field (s_namef b) (s_codef b) (sv_std (s_ver b)) (sv_strict (s_ver b)) (s_index b)
                           (sv_ge (s_ver b) 7) (s_ent b) name k) as [[ents raw]| |] eqn:Ha; simpl; auto.
@@ -413,7 +416,7 @@ Section Concrete2.
       simpl in Hok. apply andb_true_iff in Hok. destruct Hok as [O0 O3].
       unfold name_ok in O0. apply andb_true_iff in O0. destruct O0 as [O1 O2].
       rewrite HI, Rent, Rstd, Rped.
-      rewrite (add_alias_ext (i_namef P a) (s_namef b) (i_codef a) (s_codef b)); auto.
+      rewrite (add_alias_ext (i_namef P a) (s_namef b) (i_codef P a) (s_codef b)); auto.
       destruct (add_alias (s_namef b) (s_codef b) (sv_std (s_ver b)) (sv_strict (s_ver b)) (s_index b)
                           (s_ent b) name target) as [ents| |] eqn:Ha; simpl; auto.
       eexists; split; [reflexivity|]. unfold Rel; simpl; repeat split; auto.
